@@ -257,6 +257,31 @@ def generate(rng, tier, boost):
                     cases.extend([(1104, [T(hrp), t]), (1102, [t])])
             t = T(base)
             cases.extend([(1104, [T(hrp), t[:len(hrp) + 1] + [0x130] + t[len(hrp) + 2:]]), (1102, [[0x212a] + t[1:]])])
+    # strings that only the character test keeps out: a character outside the charset in the data
+    # part (CHARSET.find gives -1) with the six checksum characters chosen so that the checksum
+    # arithmetic, run on -1 exactly as Python would, comes out right
+    def crafted_bad_char(hrp, data, pos, ch):
+        vals_ = list(data)
+        vals_[pos] = -1
+        pm = _polymod(_expand(hrp) + vals_ + [0] * 6) ^ 1
+        chk = [(pm >> 5 * (5 - i)) & 31 for i in range(6)]
+        body = [CHARSET[d] for d in data]
+        body[pos] = ch
+        return hrp + '1' + ''.join(body) + ''.join(CHARSET[d] for d in chk)
+    for hrp in std:
+        for ver, n in ((0, 20), (0, 32), (1, 32)):
+            data = [ver] + to5(rbytes(rng, n))
+            for pos in (0, 1, 2, len(data) // 2, len(data) - 2):
+                for ch in 'bio':
+                    dec(hrp, crafted_bad_char(hrp, data, pos, ch))
+    # one prefix being the beginning of another: an address under "bc1x" / "bcq" / "b" is not an
+    # address under "bc" (the human-readable part is everything before the LAST separator)
+    for hrp in std:
+        for other in (hrp + '1', hrp + '1q', hrp + '1' + hrp, hrp + 'q', hrp[:-1], hrp + hrp):
+            for ver, n in ((0, 20), (0, 32), (1, 2)):
+                a_ = mk_addr(other, ver, rbytes(rng, n))
+                cases.extend(decode_cases(hrp, a_, CHAIN_OF.get(hrp)))
+                cases.append((1104, [T(other), T(a_)]))
     # an address whose data part has no letters at all cannot be built on purpose cheaply; the
     # all-digit corner is covered by junk strings below and by the proof
     # ---- C. padding ------------------------------------------------------------------
